@@ -625,6 +625,12 @@ fn append_instruction(ctx: &mut ValidationContext, inst: Operator, loc: InstrLoc
                                 )
                                 .unwrap();
                             ctx.pop_control().unwrap();
+                            // The input's `end` closes the `if`; in the emitted code
+                            // that is the `end` after the synthesized (empty) `else`,
+                            // so the location belongs to the alternative, and the
+                            // synthesized `else` has no input location at all.
+                            ctx.func.block_mut(block).end = Default::default();
+                            ctx.func.block_mut(alternative).end = loc;
                             alternative
                         }
                     };
